@@ -57,6 +57,7 @@ def main():
     for p, rs in zip(progs, results):
         ncompiled += sum(1 for r in rs if "teal" in r)
         e, meta = pipeline.make_entry(len(entries) + 1, p, rs, pipeline.make_cx(p, gsizes=(3,) if p.get("argdoms") is not None else (1,)))
+        e["strict"] = 1          # a text still running after max_steps where the source reached a verdict is reported (Refine.Compare)
         if e["texts"]:
             entries.append(e)
             metas.append(meta)
